@@ -54,6 +54,9 @@ func (f *Rem) Call(s *slip.Scope, args slip.List, depth int) (result slip.Object
 	switch num := n.(type) {
 	case slip.Fixnum:
 		div := int64(d.(slip.Fixnum))
+		if div == 0 {
+			slip.DivisionByZeroPanic(s, depth, slip.Symbol("rem"), args, "divide by zero")
+		}
 		m := int64(num) % div
 		result = slip.Fixnum(m)
 	case *slip.Bignum:
